@@ -7,10 +7,13 @@ VARIABLE hist
 gvars == <<vars, hist>>
 GInit == Init /\ hist = <<>>
 GNext == /\ ops < MaxOps
-         /\ \/ \E x \in Objs : Marshal(x) /\ hist' = Append(hist, [op |-> "marshal", n |-> x])
-            \/ \E i \in DOMAIN held : Unmarshal(i) /\ hist' = Append(hist, [op |-> "unmarshal", n |-> i])
+         /\ \/ "out" \in Sides /\ \E x \in Objs : Marshal(x) /\ hist' = Append(hist, [op |-> "marshal", n |-> x])
+            \/ "out" \in Sides /\ \E i \in DOMAIN held : Unmarshal(i) /\ hist' = Append(hist, [op |-> "unmarshal", n |-> i])
+            \/ "in" \in Sides /\ \E x \in Objs : Decode(x) /\ hist' = Append(hist, [op |-> "decode", n |-> x])
+            \/ "in" \in Sides /\ Scribble /\ hist' = Append(hist, [op |-> "scribble", n |-> 0])
 GSpec == GInit /\ [][GNext]_gvars
 
-Emit == CSVWrite("%1$s", <<ToJson([ops |-> hist, held |-> [i \in DOMAIN held |-> held[i].obj]])>>,
+Emit == CSVWrite("%1$s", <<ToJson([ops |-> hist, held |-> [i \in DOMAIN held |-> held[i].obj],
+                                   decoded |-> [i \in DOMAIN decoded |-> decoded[i].obj]])>>,
                  "values_vectors.ndjson")
 =============================================================================
